@@ -8,7 +8,7 @@ func init() {
 			"(e) node layout (types.Sizes, amd64): Node.level at offset nodeHdrSize and shorter than the mark byte offset, sizeof(NodeRef) == nodeRefSize == 16, nodeTypes has MaxLevel+1 entries and entry i carries i+1 references right after the header, level buffers have MaxLevel+1 slots, sentinels have MaxLevel, setNext(0) restores the level it shares a word with.",
 		Assumptions: []string{"gc compiler struct layout (types.SizesFor(\"gc\", \"amd64\"))"},
 		Run: func(c *Ctx) {
-			c.Do("C14.a", "L2+L9 accounting siblings", 15, func() { clAccounting(c); clRestoreItemSize(c) })
+			c.Do("C14.a", "L2+L9 accounting siblings", 15, func() { clAccounting(c); clRestoreItemSize(c); clLinkCASWhoMay(c) })
 			c.Do("C14.b", "L5+L1 winner-only soft delete accounting; upper-level links keep the sub-sequence shape", 3, func() { clSoftDeleteTable(c); clInsertStopsWhenMarked(c); clAssembleTable(c) })
 			c.Do("C14.c", "L7 Merge/Apply exhaustive", 20, func() { clStatsExhaustive(c) })
 			c.Do("C14.d", "L4+L3 local statistics owners", 10, func() { clLocalStatsOwners(c) })
